@@ -87,6 +87,45 @@ fn main() {
         t
     });
 
+    // S6 binary-structured radicands 2^n - 1, 2^n, 2^n + 1 for every n (decimal families never produce long runs
+    // of one-bits), at precisions on both sides of the word-size switches of the integer root
+    let nmax_bits: usize = tier.pick(700, 1400);
+    let p6: Vec<u64> = tier.pick(vec![3, 20, 34, 50, 100], vec![3, 20, 33, 34, 35, 50, 76, 77, 78, 100, 150]);
+    run.bound("S6_powers_of_two", format!("2^n-1, 2^n, 2^n+1 for n <= {}", nmax_bits));
+    run.bound("S6_precisions", json!(p6));
+    run.par("S6 radicands 2^n-1, 2^n, 2^n+1", nmax_bits + 1, |n| {
+        let mut t = Tally::default();
+        for d in [-1i64, 0, 1] {
+            let v = (num_bigint::BigInt::from(1) << n) + d;
+            if v <= num_bigint::BigInt::from(0) {
+                continue;
+            }
+            for s in [0i128, 1] {
+                sweep(&run, 2, &Dec { n: v.clone(), s }, &p6, false, &mut t);
+            }
+        }
+        t
+    });
+    // S7 giant precisions: near-powers from below and above, far beyond the stated p <= 150
+    let giant: Vec<u64> = tier.pick(vec![819, 1000], vec![500, 819, 1000, 2730, 3000]);
+    run.bound("S7_giant_precisions", json!(giant));
+    run.par("S7 giant precisions on near-powers", giant.len(), |i| {
+        let p = giant[i];
+        let mut t = Tally::default();
+        for r in [2i64, 3, 17, 999] {
+            let pw = num_bigint::BigInt::from(r).pow(2);
+            for j in [p + 3, 2 * p - 1, 2 * p, 3 * p + 7] {
+                let unit = Dec { n: num_bigint::BigInt::from(1), s: j as i128 };
+                let base = Dec { n: pw.clone(), s: 0 };
+                for x in [base.sub(&unit), base.add(&unit), base.clone()] {
+                    sweep(&run, 2, &x, &[p], false, &mut t);
+                    
+                }
+            }
+        }
+        t
+    });
+
     // S5 shortcuts: zero, one in any representation, negative
     run.seq("S5 zero / one / negative", || {
         let mut t = Tally::default();
